@@ -108,6 +108,15 @@ class JSONData(ABC):
     def __repr(self):
         return str(self)
 
+    def __eq__(self, other):
+        # two blobs are equal when they are of the same kind and carry the same data
+        if other is None or self.__class__ is not other.__class__:
+            return False
+        return self.data == other.data
+
+    def __hash__(self):
+        return hash((self.__class__.__name__, self._data))
+
 
 class MeasurementData(JSONData):
 
